@@ -1,4 +1,257 @@
+//! C18 – payment requests round-trip and cannot be forged or altered (bounded-exhaustive input
+//! enumeration, evidence level "exploration").
+mod b11;
+mod b12;
+mod b32;
+mod run11;
+mod run12;
+
+use mc_common::cli::{self, Tier};
+use mc_common::evidence::{Evidence, Level};
+use mc_common::findings::{self, Violation};
+use mc_common::{json, Value};
+use std::collections::BTreeMap;
+use std::time::Instant;
+
+pub const ID: &str = "C18";
+
+/// Additive counters; merged deterministically (order independent).
+#[derive(Default, Clone)]
+pub struct Stats(pub BTreeMap<String, u64>);
+impl Stats {
+	pub fn add(&mut self, k: &str, n: u64) {
+		*self.0.entry(k.to_string()).or_insert(0) += n;
+	}
+	pub fn merge(&mut self, o: &Stats) {
+		for (k, v) in o.0.iter() {
+			*self.0.entry(k.clone()).or_insert(0) += v;
+		}
+	}
+	pub fn get(&self, k: &str) -> u64 {
+		self.0.get(k).copied().unwrap_or(0)
+	}
+	pub fn sum_prefix(&self, p: &str) -> u64 {
+		self.0.iter().filter(|(k, _)| k.starts_with(p)).map(|(_, v)| *v).sum()
+	}
+}
+
+/// A violation before it is turned into `findings::Violation`; `rank` orders candidates that share
+/// an identity so the reported replay is the same on every run.
+#[derive(Clone, Debug)]
+pub struct Viol {
+	pub oracle: &'static str,
+	pub identity: String,
+	pub detail: String,
+	pub replay: Value,
+	pub rank: u64,
+}
+
+pub struct Ctx {
+	pub tier: Tier,
+	pub threads: usize,
+	pub deadline: Instant,
+	pub stats: Stats,
+	pub viols: Vec<(u64, Viol)>, // (global order, violation)
+	pub capped: bool,
+	pub samples: Vec<Value>,
+	pub distinct: std::collections::BTreeSet<u128>,
+}
+
+impl Ctx {
+	pub fn expired(&self) -> bool {
+		Instant::now() >= self.deadline
+	}
+	pub fn push(&mut self, order: u64, v: Viol) {
+		self.viols.push((order, v));
+	}
+	pub fn nontrivial(&mut self, bytes: &[u8]) {
+		self.distinct.insert(mc_common::digest128(bytes));
+	}
+}
+
+fn replay(path: &std::path::Path) -> ! {
+	let text = std::fs::read_to_string(path).unwrap_or_else(|e| cli::die(&format!("cannot read {}: {}", path.display(), e)));
+	let v: Value = mc_common::serde_json::from_str(&text).unwrap_or_else(|e| cli::die(&format!("bad replay json: {}", e)));
+	let r = &v["replay"];
+	let fam = r["fam"].as_str().unwrap_or_else(|| cli::die("replay has no family"));
+	mc_common::par::set_quiet(false);
+	let res: Result<Result<String, String>, String> = mc_common::par::guarded(|| {
+		if fam.starts_with("b11") || fam == "arb-str" {
+			run11::replay(fam, r)
+		} else {
+			run12::replay(fam, r)
+		}
+	});
+	match res {
+		Ok(Ok(msg)) => {
+			println!("REPLAY property={} oracle={} verdict=holds ({})", ID, v["oracle"].as_str().unwrap_or("?"), msg);
+			std::process::exit(0)
+		},
+		Ok(Err(msg)) => {
+			println!("REPLAY property={} oracle={} verdict=VIOLATION ({})", ID, v["oracle"].as_str().unwrap_or("?"), msg);
+			std::process::exit(1)
+		},
+		Err(p) => {
+			println!("REPLAY property={} oracle={} verdict=VIOLATION (panic: {})", ID, v["oracle"].as_str().unwrap_or("?"), p);
+			std::process::exit(1)
+		},
+	}
+}
+
 fn main() {
-	let _args = mc_common::cli::parse();
-	mc_common::cli::die("engine not built yet");
+	let args = cli::parse();
+	if let Some(p) = &args.replay {
+		replay(p);
+	}
+	if args.property != ID {
+		cli::die(&format!("mc-invoice checks {} only", ID));
+	}
+	mc_common::par::install_quiet_panic_hook();
+	let start = Instant::now();
+	let cap = if args.wall_cap_s > 0 {
+		args.wall_cap_s
+	} else if args.tier.is_thorough() {
+		1800
+	} else {
+		50
+	};
+	let mut cx = Ctx {
+		tier: args.tier,
+		threads: args.threads,
+		deadline: start + std::time::Duration::from_secs(cap),
+		stats: Stats::default(),
+		viols: Vec::new(),
+		capped: false,
+		samples: Vec::new(),
+		distinct: Default::default(),
+	};
+	let only = args.opt("only").map(|s| s.to_string());
+	let want = |n: &str| only.as_deref().map(|o| o.split(',').any(|x| x == n)).unwrap_or(true);
+
+	let mut timings: Vec<(String, f64)> = Vec::new();
+	macro_rules! phase {
+		($name: expr, $f: expr) => {
+			if want($name) {
+				let t = Instant::now();
+				$f;
+				timings.push(($name.to_string(), t.elapsed().as_secs_f64()));
+				eprintln!("[{}] {} done in {:.1}s (total {:.1}s)", ID, $name, t.elapsed().as_secs_f64(), start.elapsed().as_secs_f64());
+			}
+		};
+	}
+	phase!("b11", run11::run(&mut cx));
+	phase!("arb", run11::run_arbitrary(&mut cx));
+	phase!("b12", run12::run(&mut cx));
+
+	// ---------------------------------------------------------------------------------------
+	let mut ev = Evidence::new(ID, args.tier, args.seed, Level::Exploration);
+	for (k, v) in cx.stats.0.iter() {
+		ev.set(k, *v);
+	}
+	let evaluations: u64 = cx.stats.0.iter().filter(|(k, _)| k.ends_with(".evaluations")).map(|(_, v)| *v).sum();
+	ev.set("evaluations", evaluations);
+	ev.set("distinct_nontrivial", cx.distinct.len() as u64);
+	ev.set(
+		"rule",
+		"distinct serialisations (BOLT-11 strings, BOLT-12 TLV streams) that the builders produced and that parsed back successfully; every mutation / verification case is derived from one of them",
+	);
+	ev.set("capped", cx.capped);
+	ev.set("exhaustive", !cx.capped && only.is_none());
+	ev.set("wall_cap_s", cap);
+	ev.set("timings_s", json!(timings.iter().map(|(n, t)| json!([n, (t * 10.0).round() / 10.0])).collect::<Vec<_>>()));
+	for s in cx.samples.iter() {
+		ev.sample(s.clone(), 24);
+	}
+	ev.assume("secp256k1 (ECDSA recovery, BIP-340 verification) and SHA-256 are trusted; forgery by breaking them is out of scope");
+	ev.assume("BOLT-11 mutants that parse are compared on the parsed signed content (RawBolt11Invoice + accessors): LDK hashes its own re-serialisation of what it parsed, so encodings that parse to identical content (padding bits) count as 'exactly the signed content'");
+	ev.assume("BOLT-12 builders consult the wall clock for offer/refund expiry; enumerated expiries are either absent, in the far future (2^40 s) or in 1970, so the outcome does not depend on the current time");
+	ev.assume("the derived recipient signing secret of path-derived offers is not reachable from outside the crate; re-signed altered invoices use explicit-key and metadata-derived offers only");
+
+	// vacuity guards
+	if only.is_none() {
+		let need = [
+			"b11.roundtrip.ok",
+			"b11.builder_rejected",
+			"b11.charsub.rejected_checksum_or_bech32",
+			"b11.chardel.rejected",
+			"b11.symfix.rejected_parse",
+			"b11.symfix.rejected_signature",
+			"b11.symfix.accepted_different_key",
+			"b11.symfix.accepted_same_content_same_key",
+			"b11.symfix.rejected_malformed_signature",
+			"b11.hrpfix.accepted_different_key",
+			"b11.hrpfix.rejected_signature",
+			"b11.hrpfix.rejected_parse",
+			"b11.struct.accepted_different_key",
+			"b11.struct.rejected_parse",
+			"arb.str.rejected",
+			"arb.corpus.rejected",
+			"b12.offer.roundtrip.ok",
+			"b12.offer.builder_rejected",
+			"b12.invreq.roundtrip.ok",
+			"b12.invreq.builder_rejected",
+			"b12.invoice.roundtrip.ok",
+			"b12.refund.roundtrip.ok",
+			"b12.refund_invoice.roundtrip.ok",
+			"b12.static.roundtrip.ok",
+			"b12.flip.invreq.rejected",
+			"b12.flip.invoice.rejected",
+			"b12.flip.static.rejected",
+			"b12.flip.invreq.err.InvalidSignature:InvalidSignature",
+			"b12.flip.invoice.err.InvalidSignature:InvalidSignature",
+			"b12.flip.static.err.InvalidSignature:InvalidSignature",
+			"b12.flip.offer.parsed_identity",
+			"b12.verify.invreq.metadata.genuine_accepted",
+			"b12.verify.invreq.recipient_data.genuine_accepted",
+			"b12.verify.invreq.refused_other_key",
+			"b12.verify.invreq.refused_other_nonce",
+			"b12.verify.invreq.refused_not_derived",
+			"b12.verify.invoice.genuine_accepted",
+			"b12.verify.invoice.refused_other_key",
+			"b12.verify.refund_invoice.genuine_accepted",
+			"b12.verify.refund_invoice.refused_other_key",
+			"b12.altered_offer.refused.metadata.tlv4",
+			"b12.altered_offer.refused.metadata.tlv8",
+			"b12.altered_offer.refused.metadata.tlv22",
+			"b12.altered_offer.refused.recipient-data.tlv16",
+			"b12.altered_offer.refused.recipient-data.tlv22",
+			"b12.altered_offer.offer-unparsable",
+			"b12.altered_invoice.refused",
+			"b12.altered_refund_invoice.refused",
+			"arb.bytes.rejected",
+		];
+		for k in need {
+			if cx.stats.get(k) == 0 && !cx.capped {
+				cli::die(&format!("vacuity guard: outcome {} was never observed", k));
+			}
+		}
+	}
+
+	// one violation per identity: lowest (order, rank)
+	cx.viols.sort_by(|a, b| (a.1.identity.as_str(), a.0, a.1.rank).cmp(&(b.1.identity.as_str(), b.0, b.1.rank)));
+	let mut seen = std::collections::BTreeSet::new();
+	let mut violations = Vec::new();
+	for (_, v) in cx.viols.iter() {
+		if seen.insert(v.identity.clone()) {
+			violations.push(Violation {
+				property: ID.to_string(),
+				oracle: v.oracle.to_string(),
+				identity: v.identity.clone(),
+				detail: v.detail.chars().take(4000).collect(),
+				replay: v.replay.clone(),
+			});
+		}
+	}
+	ev.set("violation_candidates", cx.viols.len() as u64);
+	eprintln!(
+		"[{}] tier={} evaluations={} distinct_nontrivial={} capped={} violations={} wall={:.1}s",
+		ID,
+		args.tier.name(),
+		evaluations,
+		cx.distinct.len(),
+		cx.capped,
+		violations.len(),
+		start.elapsed().as_secs_f64()
+	);
+	std::process::exit(findings::conclude(ID, &violations, &mut ev));
 }
